@@ -779,9 +779,13 @@ func (ck *checker) buildBatches(thorough bool, stats map[string]any) []*batch {
 	sort.Strings(fams)
 	for _, f := range fams {
 		us := byFam[f]
-		for i := 0; i < len(us); i += 60 {
-			j := min(i+60, len(us))
-			batches = append(batches, &batch{name: fmt.Sprintf("shape:%s#%d", f, i/60), units: us[i:j]})
+		per := 60
+		if f == "control" {
+			per = 240 // small functions without helpers, none of which the compiler rejects
+		}
+		for i := 0; i < len(us); i += per {
+			j := min(i+per, len(us))
+			batches = append(batches, &batch{name: fmt.Sprintf("shape:%s#%d", f, i/per), units: us[i:j]})
 		}
 	}
 	stats["shapes"] = len(shapes)
@@ -864,6 +868,7 @@ func (ck *checker) buildBatches(thorough bool, stats map[string]any) []*batch {
 }
 
 func TestCheck(t *testing.T) {
+	vk.UseT(t)
 	r := vk.Start("C14", "model_checking", 180*time.Second, 24*time.Minute)
 	setupEnv()
 	defer vk.CleanScratch()
